@@ -2967,10 +2967,11 @@ class sptensor:
 
         if isinstance(other, ttb.sptensor):
             idxSelf = tt_intersect_rows(self.subs, other.subs)
-            idxOther = tt_intersect_rows(other.subs, self.subs)
+            # Pair the common entries by subscript (the two operands may store them
+            # in different orders)
             return ttb.sptensor(
                 self.subs[idxSelf],
-                self.vals[idxSelf] * other.vals[idxOther],
+                self.vals[idxSelf] * other.extract(self.subs[idxSelf]),
                 self.shape,
             )
         if isinstance(other, ttb.tensor):
